@@ -1,6 +1,7 @@
 package main
 
 import (
+	"strconv"
 	"unicode/utf8"
 	"fmt"
 	"go/types"
@@ -28,7 +29,29 @@ func (m *Machine) opaqueBool(key string) *Term {
 	return t
 }
 
+// intTextEq: the decimal text of integer t equals the concrete string s.
+func (m *Machine) intTextEq(t *Term, s string) *Term {
+	v, err := strconv.ParseInt(s, 10, 64)
+	if err != nil || strconv.FormatInt(v, 10) != s {
+		return falseT // not the canonical decimal spelling of any integer
+	}
+	return m.ctx.Eq(t, mkInt(64, v))
+}
+
 func (m *Machine) strEq(a, b Str) *Term {
+	// the decimal text of a symbolic integer compares exactly
+	if ta, ok := m.textOfInt(a); ok {
+		if tb, ok2 := m.textOfInt(b); ok2 {
+			return m.ctx.Eq(ta, tb)
+		}
+		if s, ok2 := b.Concrete(); ok2 {
+			return m.intTextEq(ta, s)
+		}
+	} else if tb, ok := m.textOfInt(b); ok {
+		if s, ok2 := a.Concrete(); ok2 {
+			return m.intTextEq(tb, s)
+		}
+	}
 	if a.Opaque || b.Opaque {
 		x, y := a.repr(), b.repr()
 		if x == y {
